@@ -199,6 +199,9 @@ struct World {
     port_a: u32,
     a2b_seen: usize,
     b2a_seen: usize,
+    abandon: bool,
+    abandoned: usize,
+    chunked_seen: usize,
     streaming: Option<Vec<u8>>,
     finished: bool,
     delivered_now: Vec<u128>,
@@ -266,7 +269,15 @@ impl World {
                         self.delivered_now.extend(b.iter().map(|x| *x as u128));
                         self.received_msgs.push(b);
                     }
-                    Some(Ok(Some(Received::Chunks))) => self.streaming = Some(Vec::new()),
+                    Some(Ok(Some(Received::Chunks))) => {
+                        self.chunked_seen += 1;
+                        if self.abandon && self.chunked_seen % 2 == 1 {
+                            // given up: the next call is recv_any again
+                            self.abandoned += 1;
+                        } else {
+                            self.streaming = Some(Vec::new())
+                        }
+                    }
                     Some(Ok(Some(Received::Requests(reqs)))) => {
                         self.delivered_now.push(3);
                         self.delivered_now.push(reqs.len() as u128);
@@ -377,6 +388,11 @@ pub fn exec(inp: &[u128]) -> (Vec<u128>, String, String) {
         return (vec![98], "port:malformed".into(), "ok".into());
     }
     let (ck, lim, cap_s, _cap_r, md, mp) = (inp[0] as u32, inp[1] as u32, inp[2] as usize, inp[3] as usize, inp[4] as usize, inp[5] as usize);
+    // max_ports >= 1000 marks a case with a consumer that does not follow the chunk protocol: it gives up every other
+    // chunked message by calling recv_any again instead of draining it with recv_chunk (the rest of that message is then
+    // discarded by the receiver).  Not predicted by the model (both sides answer [96]); judged by the oracle only.
+    let abandon = mp >= 1000;
+    let mp = mp % 1000;
     // cap_s = q1 + q2 + 1 with q1 = ceil((cap_s-1)/2)
     let q1 = ((cap_s - 1) + 1) / 2;
     let q2 = (cap_s - 1) - q1;
@@ -425,6 +441,9 @@ pub fn exec(inp: &[u128]) -> (Vec<u128>, String, String) {
             a2b_seen,
             b2a_seen,
             streaming: None,
+            abandon,
+            abandoned: 0,
+            chunked_seen: 0,
             finished: false,
             delivered_now: vec![],
             received_msgs: vec![],
@@ -568,6 +587,26 @@ pub fn exec(inp: &[u128]) -> (Vec<u128>, String, String) {
         let got = &w.received_msgs;
         if let Some(o) = &w.oracle {
             oracle = o.clone();
+        } else if w.abandon {
+            // what was received is, in order, what was sent successfully minus at most the messages the consumer gave up
+            let mut k = 0;
+            for g in got.iter() {
+                while k < done.len() && &done[k] != g {
+                    k += 1;
+                }
+                if k == done.len() {
+                    oracle = "FAIL: C01 a received message is not among the completed sends (in order)".into();
+                    break;
+                }
+                k += 1;
+            }
+            if oracle == "ok" {
+                if st.running {
+                    oracle = "FAIL: C03 an operation is still pending after the transport was drained and the receiver consumed everything (the consumer gave up some chunked messages, which must not cost credits)".into();
+                } else if done.len() > got.len() + w.abandoned {
+                    oracle = format!("FAIL: C01 {} sends completed, the consumer gave up {} chunked messages, but only {} arrived", done.len(), w.abandoned, got.len());
+                }
+            }
         } else if got.len() > done.len() || got.iter().zip(done.iter()).any(|(a, b)| a != b) {
             oracle = format!("FAIL: C01 received data messages are not a prefix of the completed sends ({} received, {} completed)", got.len(), done.len());
         } else if st.running {
@@ -576,9 +615,17 @@ pub fn exec(inp: &[u128]) -> (Vec<u128>, String, String) {
             oracle = format!("FAIL: C01 {} sends completed but only {} messages arrived after the drain phase", done.len(), got.len());
         }
         drop(st);
+        if w.abandoned > 0 {
+            sig.push("gaveup".into());
+        }
         (out, sig, oracle)
     });
     let (out, sig, oracle) = res;
+    let mut sig = sig;
+    if abandon {
+        sig.push("giveup".into());
+    }
+    let out = if abandon { vec![96] } else { out };
     let mut counts = std::collections::BTreeMap::new();
     for s in &sig {
         *counts.entry(s.clone()).or_insert(0usize) += 1;
@@ -603,6 +650,8 @@ pub fn gen(r: &mut Rng, _i: usize) -> Vec<Vec<u128>> {
     let cap_s = q1 + q2 + 1;
     let md = *r.pick(&[4u128, 8, 16, 40, 300]);
     let mp = *r.pick(&[1u128, 2, 8]);
+    // one case in six: a consumer that gives up chunked messages (oracle only)
+    let mp = if r.chance(1, 6) { mp + 1000 } else { mp };
     let mut v = vec![ck, lim, cap_s, 16, md, mp];
     let nops = r.range(4, 30);
     let mut chunk_alive = false;
